@@ -312,7 +312,13 @@ def assert_valid_covariance(
     magnitude.
     """
     assert isinstance(covariance, np.ndarray)
-    assert np.allclose(covariance, covariance.T)
+    # like the eigenvalue test below, relative to the magnitude of the matrix:
+    # the rounding error of an off-diagonal entry is proportional to the
+    # largest entries it was computed from, not to its own size
+    largest_entry = np.max(np.abs(covariance), initial=0.0)
+    assert np.allclose(
+        covariance, covariance.T, atol=1e-8 + relative_tol * largest_entry
+    )
 
     covariance_eigenvalues = np.linalg.eig(covariance)[0]
     magnitude = np.max(np.abs(covariance_eigenvalues), initial=0.0)
